@@ -120,6 +120,18 @@ theorem lapUpdate_value (vs : List R3) (nb : List Nat) (factor : ℝ) (vertex : 
   unfold lapUpdate; rw [nbSum_eq]
   ext <;> simp [V3.Add, V3.Sub, V3.Scale, V3.DivByConstant] <;> ring
 
+/-- **the Laplacian value as far as it transfers to the Go code**: for a vertex WITH at least one neighbour the written value
+    is `(1 − f)·v + f·mean(neighbours)`. For a vertex without neighbours (an unreferenced vertex — explicitly inside the C03
+    quantifier) NO claim is made here: Go computes `sum / 0 = NaN` and writes NaN (float only; covered by the correspondence
+    and the corpus case `lap:neighbourless`), while over ℝ `x/0 = 0` would give `(1−f)·v`. -/
+theorem lapUpdate_value_with_neighbours (vs : List R3) (nb : List Nat) (hnb : nb ≠ []) (factor : ℝ) (vertex : R3) :
+    (nb.length : ℝ) ≠ 0 ∧
+    lapUpdate vs nb factor vertex =
+      (vertex.Scale (1 - factor)).Add (((sumV (nb.map (valOr0 vs))).DivByConstant (nb.length : ℝ)).Scale factor) := by
+  refine ⟨?_, lapUpdate_value vs nb factor vertex⟩
+  have : 0 < nb.length := List.length_pos_iff.mpr hnb
+  exact_mod_cast this.ne'
+
 /-! ### the recurrence, as the code runs it -/
 
 /-- **laplacian_spec (recurrence)**: vertex `k` is replaced by `lapUpdate` evaluated on the list in which the
@@ -249,6 +261,19 @@ theorem neighbours_nodup (es : List (Nat × Nat)) (v : Nat) : (neighbours es v).
         · exact insertSorted_sorted _ _ h
         · exact h
   exact this.imp (fun h => Nat.ne_of_lt h)
+
+/-- a vertex `v` that is a corner of an index triple has a neighbour; an index triple `(v, v, w)` makes `v` its OWN neighbour
+    (Go's `Link(v, v)` and the model agree) -/
+theorem neighbours_ne_nil_of_edge (es : List (Nat × Nat)) (v w : Nat) (h : (v, w) ∈ es ∨ (w, v) ∈ es) :
+    neighbours es v ≠ [] := by
+  have : w ∈ neighbours es v := by
+    rw [neighbours_mem]
+    rcases h with h | h
+    · exact ⟨(v, w), h, Or.inl ⟨rfl, rfl⟩⟩
+    · exact ⟨(w, v), h, Or.inr ⟨rfl, rfl⟩⟩
+  intro hn; rw [hn] at this; simp at this
+
+example : neighbours [(3, 3), (3, 5)] 3 = [3, 5] := by decide
 
 /-! ### mesh level, and what stays order dependent -/
 
